@@ -1,11 +1,13 @@
 """C19 - Opening arbitrary bytes fails only with ELFError; header enumeration terminates.
 
 Spec: spec/Faults.tla  (a) the FAULT PLAN machine [seed, Seq(fault)] - Truncate / Substitute / CorruptField(record,
-      field, value class) composed up to 2 (quick) / 3 (thorough) faults; the specification locates the records of
+      field, value class; for section links also the LINK classes self / peer / back / count that close cycles of the
+      sh_link graph) composed up to 2 (quick) / 3 (thorough) faults; the specification locates the records of
       every seed itself (layout data of Elf.tla) and emits each fault as a byte patch [offset, bytes];  (b) the
       CONSTRUCTOR OUTCOME model (decision procedure of opening a file -> {OK, ELFError}; drift and tags only).
       spec/FaultWalk.tla  (c) WALKER TERMINATION: every enumeration loop as a machine over an abstract file of n units
-      with corrupted field classes; TLC proves <>halted and steps <= K*(n+1) for the guarded readers and REFUTES it for
+      with corrupted field classes (incl. the walk along sh_link from every enumerated section: `links`); TLC proves
+      <>halted, steps <= K*(n+1) and LinkOnce (no section made twice in one link walk) for the guarded readers and REFUTES it for
       the loops as the format text implies them (lasso + bound witnesses).
 
 G: construct  every emitted plan is applied to the seed bytes (patches and truncation only - this file knows no field)
@@ -400,7 +402,11 @@ def check(run):
                 'order, + small corpus files) x sequences of up to %d faults {Truncate(n): every length <= 4 KiB of the small '
                 'seeds and every header-table boundary; Substitute(pos, v): pos < 64, v in {00, ff, +1, ^80}; CorruptField(record, '
                 'field, class): Ehdr/Shdr/Phdr/Dyn/Nhdr/hash header/GNU hash header+bucket/verdef/verdaux/verneed/vernaux fields x '
-                '{0, 1, entsize-1, size, size+1, 2^31, 2^32-1, 2^63, 2^64-1}}, composed within reader groups; (2) the minimal '
+                '{0, 1, entsize-1, size, size+1, 2^31, 2^32-1, 2^63, 2^64-1; 2^width-entsize in displacement and size fields; in the '
+                'sh_link / sh_info of every section kind that names another section there (symbol tables, dynamic, hash, GNU hash, '
+                'versym/verdef/verneed, rel/rela, symtab_shndx, group, syminfo): own index, next / previous section of the same kind, '
+                'first / last section whose sh_link points back, number of sections}}, composed within reader groups and, for the link '
+                'classes, with each other (1- and 2-cycles of the link graph); (2) the minimal '
                 'bound witnesses of the walker machines (spec/FaultWalk.tla) concretised on every seed; (3) %d seeded random byte '
                 'strings behind a valid identification prefix.  Each case is opened with ELFFile and, if that succeeds, enumerated '
                 'by the battery through a counting stream.  distinct = by the bytes of the faulted image; non-trivial = the '
